@@ -313,6 +313,8 @@ def desugar_for_ranges(body, drops, fn_disp):
         masked = rsrc.mask(body)
         found = None
         for m in re.finditer(r"\bfor\s+([A-Za-z_]\w*)\s+in\b", masked):
+            if m.group(1) == "_":
+                continue   # `for _ in A..B`: no loop variable to count with; templates rewrite it explicitly
             o, c = _block_after(masked, m.end())
             hdr = masked[m.end():o]
             # top-level `..` (not `..=`)
